@@ -187,13 +187,17 @@ LoadStatus DepsLog::Load(const string& path, State* state, string* err) {
 
   long offset = ftell(f);
   bool read_failed = false;
+  bool partial_header = false;
   int unique_dep_record_count = 0;
   int total_dep_record_count = 0;
   for (;;) {
     unsigned size;
-    if (fread(&size, sizeof(size), 1, f) < 1) {
+    size_t header_bytes = fread(&size, 1, sizeof(size), f);
+    if (header_bytes < sizeof(size)) {
       if (!feof(f))
         read_failed = true;
+      else if (header_bytes > 0)
+        partial_header = true;  // Torn write: 1-3 bytes of a record header.
       break;
     }
     bool is_deps = (size >> 31) != 0;
@@ -300,6 +304,11 @@ LoadStatus DepsLog::Load(const string& path, State* state, string* err) {
   }
 
   fclose(f);
+
+  // Cut off the stray bytes of a torn record header, so that the next
+  // session does not append its records behind them.
+  if (partial_header && !Truncate(path, offset, err))
+    return LOAD_ERROR;
 
   // Rebuild the log if there are too many dead records.
   int kMinCompactionEntryCount = 1000;
